@@ -93,6 +93,12 @@ type Outcome struct {
 	Summary  Summary
 	// ErrorsSeen are the classified error traces of the whole run.
 	Answered int
+	// CohortRisk: why the run is inside the pattern of known finding C05-F1
+	// (model.CohortRisk); empty = the finding cannot explain a failure.
+	CohortRisk []string
+	// HeldBack: an inclusive gateway of the model held a token the BPMN rule
+	// would have released (model.M.HeldBack); both are allowed by C05.
+	HeldBack bool
 }
 
 // Hooks lets property tests observe/extend the run.
@@ -235,6 +241,7 @@ func RunLockstep(c *Case, pick func(n int) int, hk *Hooks) *Outcome {
 		defer in.Close()
 	}
 	m := model.New(prog.G, c.Vars)
+	defer func() { out.CohortRisk, out.HeldBack = m.CohortRisk(), m.HeldBack }()
 
 	fail := func(sym, detail string, gs []quiesce.G) *Outcome {
 		if os.Getenv("VERIF_DEBUG") != "" && (sym == "missing-request" || sym == "extra-request") {
@@ -329,6 +336,22 @@ func RunLockstep(c *Case, pick func(n int) int, hk *Hooks) *Outcome {
 	earlyRes := make(chan bool, 1)
 	go func() { earlyRes <- in.P.WaitUntilComplete(earlyCtx) }()
 	earlyReturned := false
+	// The property lets an inclusive gateway fire as early as the BPMN rule
+	// allows; the model holds such tokens back until the late bound. When the
+	// engine reports completion, joins the early rule enables are therefore
+	// fired in the model before the two are compared (an early firing that
+	// asks for a task contradicts the completion and is left to the caller).
+	settleEarly := func() {
+		for i := 0; i < 16 && !m.Done(); i++ {
+			amb := m.AmbiguousJoins()
+			if len(amb) == 0 {
+				return
+			}
+			if o := m.FireEarly(amb[0]); len(o.Requests) > 0 {
+				return
+			}
+		}
+	}
 	checkEarly := func(stage string, gs []quiesce.G) *Outcome {
 		if earlyReturned {
 			return nil
@@ -336,6 +359,9 @@ func RunLockstep(c *Case, pick func(n int) int, hk *Hooks) *Outcome {
 		select {
 		case v := <-earlyRes:
 			earlyReturned = true
+			if v {
+				settleEarly()
+			}
 			if v && !m.Done() {
 				return fail("complete-early", fmt.Sprintf("%s: WaitUntilComplete returned true while the model still holds tokens (pending %v)", stage, m.PendingIDs()), gs)
 			}
@@ -444,6 +470,9 @@ func RunLockstep(c *Case, pick func(n int) int, hk *Hooks) *Outcome {
 		case <-wres:
 		case <-time.After(5 * time.Second):
 		}
+	}
+	if returned && complete {
+		settleEarly()
 	}
 	if m.Done() {
 		if !returned || !complete {
